@@ -140,15 +140,23 @@ def thm_iter(theories, rnd, n_per):
             theory.thy.unchecked_extend(item.get_extension())
 
 
+def full_lines(state):
+    """projection used for copy isolation: ids, rules, citations, interned sequents AND printed arguments"""
+    try:
+        return [lines_of(state), export_lines(state)[0]]
+    except Exception as e:
+        return [lines_of(state), ["export failed: " + type(e).__name__]]
+
+
 def apply_on_copy(state, step):
     trial = copy.copy(state)
-    before = lines_of(state)
+    before = full_lines(state)
     try:
         method.apply_method(trial, step)
         trial.check_proof(compute_only=True)
-        return trial, before, lines_of(state), None
+        return trial, before, full_lines(state), None
     except Exception as e:
-        return None, before, lines_of(state), e
+        return None, before, full_lines(state), e
 
 
 def edit_event(out, thname, item, goal, state, idx, route, step, copy_info):
@@ -181,6 +189,8 @@ def perturb_steps(state, rnd):
         for r in res[:6]:
             st = {k: v for k, v in r.items() if not k.startswith("_") and k != "display"}
             st["goal_id"], st["fact_ids"] = gid, r.get("fact_ids", fsel)
+            if st.get("method_name") in ("exists_elim", "introduction") and "names" not in st:
+                st["names"] = "w%d, w%d" % (rnd.randint(0, 3), rnd.randint(4, 7))
             cands.append(st)
     except Exception:
         pass
